@@ -126,6 +126,16 @@ def strings(alpha, maxlen):
             yield (''.join(t),)
 
 
+HTML_TOKENS = ['<a>', '</a>', '<b>', '</b>', '<br>', '<a/>', 'x', '<!--<b>-->', ' ']
+CSS_TOKENS = ['a{', '}', 'b:c;', 'd', ' ', '/*}*/', ':', '(', ';']
+
+
+def token_docs(tokens, maxn):
+    for n in range(1, maxn + 1):
+        for t in itertools.product(tokens, repeat=n):
+            yield (''.join(t),)
+
+
 def run(tier, seed):
     hl, cl = (4, 4) if tier == "quick" else (5, 6)
     c1 = Clause('html-exhaustive', 'B', 'all strings over %r' % HTML_ALPHA, 'length <= %d, positions -1..len+1, html and xml mode' % hl,
@@ -136,4 +146,17 @@ def run(tier, seed):
                 'a case is one source string (all positions checked inside); distinct by string', exhaustive=True)
     run_parallel(c2, 'bounded.c16', 'check_css', strings(CSS_ALPHA, cl), chunk=1500)
     c2.done()
-    return [c1, c2]
+    # longer, structured documents: several top-level elements / rules, nesting, comments (the relational
+    # HTML clause needs documents such as <a></a><a></a>, far beyond the character-exhaustive bound)
+    tn = 5 if tier == 'quick' else 6
+    c3 = Clause('html-token-sequences', 'B', 'all concatenations of the tokens %r' % (HTML_TOKENS,),
+                'up to %d tokens, positions -1..len+1, html and xml mode' % tn,
+                'a case is one document (all positions, both modes checked inside); distinct by document', exhaustive=True)
+    run_parallel(c3, 'bounded.c16', 'check_html', token_docs(HTML_TOKENS, tn), chunk=400)
+    c3.done()
+    c4 = Clause('css-token-sequences', 'B', 'all concatenations of the tokens %r' % (CSS_TOKENS,),
+                'up to %d tokens, positions -1..len+1' % tn,
+                'a case is one stylesheet (all positions checked inside); distinct by document', exhaustive=True)
+    run_parallel(c4, 'bounded.c16', 'check_css', token_docs(CSS_TOKENS, tn), chunk=800)
+    c4.done()
+    return [c1, c2, c3, c4]
